@@ -71,6 +71,15 @@ Definition env_map_step (fixe : bool) (e : map_entry) : env_outcome :=
 Definition env_empty_list_step (fixl : bool) (pointer_is_nil : bool) : env_outcome :=
   if pointer_is_nil then (if fixl then EnvUsesEntry true else EnvPanic) else EnvUsesEntry false.
 
+(* env loader, parameters with their own UnmarshalEnv: a variable that only EXTENDS the parameter's name
+   (MTX_PROTOCOLS_X) takes the "has sub-keys" branch
+
+     } else if envHasAtLeastAKeyWithPrefix(env, prefix+"_") {
+         [fix: if prv.IsNil() { prv.Set(reflect.New(rt)); i = ... }]
+         err := i.UnmarshalEnv(prefix, "")               <- nil receiver when the parameter is optional and unset *)
+Definition env_subkey_step (fixu : bool) (pointer_is_nil : bool) : env_outcome :=
+  if pointer_is_nil then (if fixu then EnvUsesEntry true else EnvPanic) else EnvUsesEntry false.
+
 (* ------------------------------------------------------------------------------------- *)
 (* Conf.Validate / Path.validate: the constraints the property names *)
 
@@ -132,7 +141,9 @@ Record pathc := {
   p_run_demand : bool;     (* RunOnDemand != "" || RunOnUnDemand != "" *)
   p_record_path : list Z;
   p_seg : Z;               (* RecordSegmentDuration, ns *)
-  p_del : Z                (* RecordDeleteAfter, ns *)
+  p_del : Z;               (* RecordDeleteAfter, ns *)
+  p_tracks : list (Z * Z * Z)  (* AlwaysAvailableTracks: (codec class, sampleRate, channelCount); class 0 = AV1/VP9/H265/H264/Opus,
+                                  1 = MPEG4Audio, 2 = G711/LPCM, 3 = anything else *)
 }.
 
 Definition set_regex (p : pathc) (r : bool) : pathc :=
@@ -141,7 +152,7 @@ Definition set_regex (p : pathc) (r : bool) : pathc :=
      p_redirect := p_redirect p; p_redirect_ok := p_redirect_ok p; p_cam := p_cam p;
      p_secondary := p_secondary p; p_rpi_ok := p_rpi_ok p; p_other_ok := p_other_ok p; p_aa := p_aa p;
      p_aa_src_ok := p_aa_src_ok p; p_abs_ts := p_abs_ts p; p_run_init := p_run_init p;
-     p_run_demand := p_run_demand p; p_record_path := p_record_path p; p_seg := p_seg p; p_del := p_del p |}.
+     p_run_demand := p_run_demand p; p_record_path := p_record_path p; p_seg := p_seg p; p_del := p_del p; p_tracks := p_tracks p |}.
 
 Record gconf := {
   g_read_to : Z;                   (* ReadTimeout, ns *)
@@ -163,6 +174,13 @@ Definition name_is_regex (n : list Z) : bool :=
   list_eqb n s_all || list_eqb n s_all_others || match n with 126 :: _ => true | _ => false end.
 Definition is_static (s : src) : bool := match s with SPublisher | SRedirect => false | _ => true end.
 Definition srt_len_ok (n : Z) : bool := (10 <=? n) && (n <=? 79).
+(* AlwaysAvailableTrack.validate (codec / sampleRate / channelCount rules) *)
+Definition track_ok (t : Z * Z * Z) : bool :=
+  let '(c, sr, cc) := t in
+  if c =? 0 then (sr =? 0) && (cc =? 0)
+  else if c =? 1 then (22050 <=? sr) && negb (cc =? 0)
+  else if c =? 2 then (8000 <=? sr) && negb (cc =? 0)
+  else false.
 Definition is_primary (p : pathc) : bool := src_eqb (p_source p) SRpi && negb (p_secondary p).
 Definition primaries_with (c : Z) (ps : list pathc) : nat :=
   length (filter (fun q => is_primary q && (p_cam q =? c)) ps).
@@ -208,7 +226,8 @@ Definition path_ok (playback : bool) (all : list pathc) (taken : list Z) (p : pa
   && negb (day_ns <? p_seg p)                                             (* maximum segment duration is 1 day *)
   && negb (negb (p_del p =? 0) && (p_del p <? p_seg p))                   (* deleteAfter < segmentDuration *)
   && negb (p_run_init p && re)
-  && negb (p_run_demand p && negb (src_eqb s SPublisher)).
+  && negb (p_run_demand p && negb (src_eqb s SPublisher))
+  && forallb track_ok (p_tracks p).                                       (* every track, also when set through the environment *)
 
 Definition validate_path (playback : bool) (all : list pathc) (taken : list Z) (p : pathc)
   : result (pathc * list Z) :=
@@ -270,7 +289,8 @@ Definition path_documented_b (playback : bool) (p : pathc) : bool :=
   (negb (p_run_demand p) || src_eqb (p_source p) SPublisher) &&
   (negb (p_aa p) || (negb (p_regex p) && negb (p_on_demand p) && negb (p_run_demand p) && negb (p_abs_ts p))) &&
   negb (src_eqb (p_source p) SInvalid) && negb (src_eqb (p_source p) (SStatic false)) &&
-  (negb (p_redirect p) || src_eqb (p_source p) SRedirect).
+  (negb (p_redirect p) || src_eqb (p_source p) SRedirect) &&
+  forallb track_ok (p_tracks p).
 
 (* camera ids of the secondary rpiCamera streams *)
 Definition is_sec (p : pathc) : bool := src_eqb (p_source p) SRpi && p_secondary p.
